@@ -6,7 +6,7 @@ import z3
 from crosshair.core import _PATCH_REGISTRATIONS
 from crosshair.libimpl.builtinslib import (RealBasedSymbolicFloat, PreciseIeeeSymbolicFloat, SymbolicInt)
 from crosshair.statespace import context_statespace
-from crosshair.tracers import NoTracing
+from crosshair.tracers import NoTracing, ResumedTracing
 
 F64 = z3.Float64()
 _sqrt, _deg, _rad = math.sqrt, math.degrees, math.radians
@@ -52,7 +52,44 @@ def radians(x):
         return _rad(x)
 
 
+_orig_int = None
+
+
+def _ieee_int(x):
+    """int(x) for an IEEE symbolic float: truncation through fp.to_sbv (RTZ) when |x| < 2^62, else the stock real-valued term."""
+    with NoTracing():
+        sp = context_statespace()
+        if sp.smt_fork(z3.fpIsNaN(x.var)):
+            raise ValueError('cannot convert float NaN to integer')
+        if sp.smt_fork(z3.fpIsInf(x.var)):
+            raise OverflowError('cannot convert float infinity to integer')
+        lim = z3.FPVal(2.0 ** 62, F64)
+        if sp.smt_fork(z3.And(z3.fpLT(x.var, lim), z3.fpGT(x.var, z3.fpNeg(lim))), probability_true=0.99):
+            return SymbolicInt(z3.BV2Int(z3.fpToSBV(z3.RTZ(), x.var, z3.BitVecSort(64)), is_signed=True))
+        return SymbolicInt(z3.ToInt(z3.fpToReal(z3.fpRoundToIntegral(z3.RTZ(), x.var))))
+
+
+def sym_int(*a, **kw):
+    """builtin int(): stock CrossHair realises symbolic floats; keep them symbolic."""
+    with NoTracing():
+        if len(a) == 1 and not kw:
+            v = a[0]
+            if isinstance(v, PreciseIeeeSymbolicFloat):
+                return _ieee_int(v)
+            if isinstance(v, RealBasedSymbolicFloat):
+                with ResumedTracing():
+                    return v.__int__()
+        from crosshair.util import CrossHairValue
+        if not any(isinstance(v, CrossHairValue) for v in a) and not kw:
+            return int(*a)
+    return _orig_int(*a, **kw)
+
+
 def install():
+    global _orig_int
+    _orig_int = _PATCH_REGISTRATIONS[int]
+    _PATCH_REGISTRATIONS[int] = sym_int
+    PreciseIeeeSymbolicFloat.__int__ = lambda self: _ieee_int(self)
     _PATCH_REGISTRATIONS[math.sqrt] = sqrt
     _PATCH_REGISTRATIONS[math.degrees] = degrees
     _PATCH_REGISTRATIONS[math.radians] = radians
